@@ -29,11 +29,20 @@ Print Assumptions C07_cfb_dec_par.
 
 (* keystream cores: n blocks through groups of w (gen_par_ks_blocks) and a tail (gen_tail_blocks)
    = n single generations *)
-Theorem C07_core_generic : forall (St : Type) (K : score St),
-  (forall st, sc_gen_par K st = gen_n K (sc_w K) st) ->
-  forall n st, ks_blocks K n st = gen_n K n st.
-Proof. intros St K H n st. apply ks_blocks_gen_n. exact H. Qed.
+Theorem C07_core_generic : forall (St : Type) (K : score St) (P : St -> Prop),
+  (forall st, P st -> P (fst (sc_gen K st))) ->
+  (forall st, P st -> sc_gen_par K st = gen_n K (sc_w K) st) ->
+  forall n st, P st -> ks_blocks K n st = gen_n K n st.
+Proof. intros St K P H1 H2 n st. apply ks_blocks_gen_n; auto. Qed.
 Print Assumptions C07_core_generic.
+
+(* ... instantiated for the cores the interpreter dispatches to *)
+Theorem C07_cores : forall (C : cipher),
+  (forall cs be n cn, ks_blocks (kscore C (SCtr cs be)) n (CCtr cn) = gen_n (kscore C (SCtr cs be)) n (CCtr cn)) /\
+  (forall n st, ks_blocks (kscore C SBelt) n (CBelt st) = gen_n (kscore C SBelt) n (CBelt st)) /\
+  (forall n iv, ks_blocks (kscore C SOfb) n (COfb iv) = gen_n (kscore C SOfb) n (COfb iv)).
+Proof. exact kscore_ks_blocks. Qed.
+Print Assumptions C07_cores.
 
 Theorem C07_ctr_par : forall (F : flavor) (C : cipher) cn, ctr_gen_par F C cn = ctr_gen_n F C (c_w C) cn.
 Proof. exact ctr_gen_par_ok. Qed.
